@@ -68,7 +68,13 @@ ASSUMPTIONS = [
     'integer the reference function is the finite sum DLMF 13.2.7 (mpmath cannot certify the exact zeros of U), still '
     'differentiated numerically; points where scipy.special.hyperu(a+n, b+n, x) itself is non-finite are steered around '
     'while KF-nthderiv-hyperu-integer-b-nan is open',
-    'clip: a_min > a_max is inadmissible and not generated; bounds None are not generated',
+    'clip: a_min > a_max is inadmissible and not generated; bounds None and array-valued bounds are not generated; '
+    'infinite bounds (one-sided / unbounded clipping) are; points of extreme magnitude are exempt from the 0.05 margin',
+    'tiny arguments (all |x| <= 1e-3): no floor in the error scale (relative accuracy) for every closed form that delivers '
+    'it on the reference tree - all except sin at even n >= 2, cos at odd n, arctanh at even n >= 2, arcsin/arccos at '
+    'n >= 10; an exact 0 keeps the floor; the sign of a zero result is not asserted',
+    'overflow edge: exp/expm1 up to x = 709.7, exp2 up to 1023.9, sinh/cosh up to |x| = 710.4 (results up to 1.7e308 are '
+    'admitted as references)',
 ]
 
 # ---------------------------------------------------------------------------
@@ -899,6 +905,14 @@ def piecewise_cases(draw, name, tier):
             hi = lo
         else:
             hi = lo + draw(st.one_of(st.integers(1, 4), gen.nice_floats(0.5, 4.0)))
+        # one-sided and unbounded clipping: an infinite bound is admissible (numpy.clip(x, 0, numpy.inf))
+        inf_mode = draw(st.sampled_from(['finite'] * 5 + ['hi-inf', 'lo-inf', 'both-inf']))
+        if inf_mode in ('hi-inf', 'both-inf'):
+            hi = float('inf')
+        if inf_mode in ('lo-inf', 'both-inf'):
+            if inf_mode == 'lo-inf' and hi == lo:
+                hi = lo + 1
+            lo = float('-inf')
         extras = [lo, hi]
         if draw(st.integers(0, 2)) == 0:
             extras = [np.int64(e) if isinstance(e, int) else np.float64(e) for e in extras]
@@ -915,7 +929,7 @@ def piecewise_cases(draw, name, tier):
         # every point, jumps included
         cands = [gen.nice_floats(-8.5, 8.5), k_int.map(float), k_int.map(lambda k: k + 0.5), st.sampled_from([0.0, -0.0])]
         if name == 'clip':
-            cands.append(st.sampled_from([float(lo), float(hi)]))
+            cands.append(st.sampled_from([float(b) for b in (lo, hi) if np.isfinite(b)] or [0.0]))
         pt = st.one_of(*cands)
     elif jump == 'int':
         pt = st.builds(lambda k, u: k + u, k_int, gen.nice_floats(0.05, 0.95))
@@ -928,6 +942,12 @@ def piecewise_cases(draw, name, tier):
     else:   # clip: below, inside, above; distance >= 0.05 from both bounds
         def place(ru):
             region, u = ru
+            if lo == float('-inf') and hi == float('inf'):
+                return 10 * u - 5
+            if hi == float('inf'):            # below a_min, or inside [a_min, inf)
+                return (lo - 0.05 - 2 * u) if region == 0 else (lo + 0.05 + 4 * u)
+            if lo == float('-inf'):           # above a_max, or inside (-inf, a_max]
+                return (hi + 0.05 + 2 * u) if region == 2 else (hi - 0.05 - 4 * u)
             if region == 0:
                 return lo - 0.05 - 2 * u
             if region == 1 and hi > lo:
@@ -1010,6 +1030,9 @@ def _classes(case):
         c.append('cross:%s:%s' % (case['cross']['f'], 'first' if case['cross']['first'] else 'after'))
     if case['f'] == 'clip':
         lo, hi = case['extras']
+        if lo == float('-inf') or hi == float('inf'):
+            c.append('clip:bounds:%s' % ('unbounded' if (lo == float('-inf') and hi == float('inf')) else
+                                         ('upper-infinite' if hi == float('inf') else 'lower-infinite')))
         c.append('clip:bounds:%s' % ('degenerate' if lo == hi else ('both-negative' if hi < 0 else ('both-positive' if lo > 0 else 'straddle-0'))))
         for v in el:
             c.append('clip:n%s:%s' % ('0' if n == 0 else ('1' if n == 1 else '>=2'),
